@@ -804,21 +804,38 @@ def decide_solo(ctx, known, h, t, v):
     return ("broken", "solo history outside the model's domain")
 
 
+LOAD_SUSPECT = ("worker died", "timeout", "no advance", "ready not taken", "lost")
+
+
+def _run_tagged(exe, hs, timeout):
+    """run the histories; outputs are matched to inputs by the position id the driver echoes"""
+    rc, lines, e = vlib.run_driver(exe, "order", hs, timeout=timeout)
+    outs = [None] * len(hs)
+    for l in lines:
+        if isinstance(l, dict) and isinstance(l.get("hid"), int) and 0 <= l["hid"] < len(hs) and isinstance(l.get("t"), dict):
+            outs[l["hid"]] = l["t"]
+    return rc, outs, e
+
+
 def run_order_batch(exe, hs, isolate=True):
-    rc, outs, e = vlib.run_driver(exe, "order", hs, timeout=1800)
-    if rc != 0 or len(outs) != len(hs):
-        return None, "driver rc=%s outs=%d/%d %s" % (rc, len(outs), len(hs), e[-1200:])
-    # a worker process that died (panic / Fatalf inside the node) takes the rest of its share with it:
-    # run those histories again, each in a process of its own, to find the one that kills the node
-    dead = [i for i, t in enumerate(outs) if t.get("err") == "worker died"]
-    if dead and isolate:
-        for i in dead[:60]:
-            rc1, o1, e1 = vlib.run_driver(exe, "order", [hs[i]], timeout=300)
-            if rc1 == 0 and len(o1) == 1:
-                outs[i] = o1[0]
-                if o1[0].get("err") == "worker died":
-                    outs[i]["stderr"] = e1[-800:]
-    return outs, ""
+    rc, outs, e = _run_tagged(exe, hs, 2400)
+    if all(o is None for o in outs):
+        return None, "driver rc=%s produced no usable output: %s" % (rc, e[-1200:])
+    if not isolate:
+        return [o if o is not None else dict(steps=[], err="lost") for o in outs], ""
+    # A history whose output is missing, or that ended in a way a loaded machine can cause (a worker that died
+    # takes the rest of its share with it; a deadline passed), is run again on its own, once, before anything is
+    # concluded from it.  Only what fails again alone is a result.
+    again = [i for i, o in enumerate(outs) if o is None or any(k in (o.get("err") or "") for k in LOAD_SUSPECT)]
+    for i in again[:200]:
+        rc1, o1, e1 = _run_tagged(exe, [hs[i]], 900)
+        if o1[0] is not None:
+            outs[i] = o1[0]
+            if o1[0].get("err") == "worker died":
+                outs[i]["stderr"] = e1[-800:]
+        else:
+            outs[i] = dict(steps=[], err="lost", lost=True, stderr=(e1 or "")[-800:])
+    return [o if o is not None else dict(steps=[], err="lost", lost=True) for o in outs], ""
 
 
 def judge_order(hs, outs, flags):
@@ -995,6 +1012,13 @@ def run_order(ctx, known):
                 reported.add(key)
                 ctx.violation("a commit event taken from Order.Commit() changed its content afterwards (%d event(s))" % t["changed"],
                               dict(property="C20", driver="order", history=h, impl=t, what="delivered event changed"))
+        if (v == (9, 0) or v == (9, 1)) and t.get("lost"):
+            key = ("violation", "lost", kind)
+            if key not in reported:
+                reported.add(key)
+                ctx.violation("the driver produced no trace for this history, also when it was run again on its own",
+                              dict(property="C20", driver="order", history=h, impl=t, what="no trace twice"))
+            continue
         if v == (9, 0) or v == (9, 1):
             if t.get("err") == "worker died" and t.get("stderr") is not None:
                 key = ("violation", "died", kind)
